@@ -58,7 +58,7 @@ func c08Restore(db *sql.DB, snap map[string][]byte) {
 }
 
 func TestVerifC08(t *testing.T) {
-	rep := newVerifReport("C08", "full matrix actor role (plain, admin by name, admin by directory group, automation admin) x session level (password, password+U2F) x target (self, other existing, other missing) x operation (U2F/TOTP token Update/Enable/Disable/Delete, register begin/finish for self/other, TOTP generate, profile view, users list/add/delete, bootstrap-OTP issue, automation-certificate mint for configured/unconfigured identity) x token index (target's valid, actor's, missing, negative); forbidden => >=400, all stored profiles byte-identical, no target data in response; allowed => the intended change only; admin memo re-evaluation with virtual time; class = (role, level, target relation, operation, index kind, verdict)")
+	rep := newVerifReport("C08", "full matrix actor role (plain, admin by name, admin by directory group, automation admin) x session level (password, password+U2F) x target (self, other existing, other missing) x operation (U2F/TOTP token Update/Enable/Disable/Delete, register begin/finish for self/other, TOTP generate, profile view, users list/add/delete, bootstrap-OTP issue, automation-certificate mint for configured/unconfigured identity) x token index (target's valid, actor's, missing, negative); forbidden => >=400, all stored profiles byte-identical, no target data in response; allowed => the intended change only; admin memo re-evaluation with virtual time; automation admin alternating mint and administrator-only requests inside and across memo lifetimes; class = (role, level, target relation, operation, index kind, verdict)")
 	defer rep.Finish()
 	dir := newVerifDirectory(1)
 	for _, u := range []string{"alice", "bob", "root1", "grpadmin", "autoadm"} {
@@ -354,7 +354,68 @@ func TestVerifC08(t *testing.T) {
 		clk.Advance(6 * time.Minute)
 		probe("admin-by-name,directory-down", "root1", 200, false)
 		dir.SetAll("up")
+		// an automation admin may mint automation certificates and nothing else, in whichever order the two kinds of
+		// request arrive within one memo lifetime and after it
+		mintAs := func(user string) int {
+			q := verifRoleMintReq("autobot", verifUserECKey().Public(), []string{"10.0.0.0/8"}, []string{"10.0.0.0/8"}, nil)
+			q.Cookies = verifCk(cookie(user, levels["password+U2F"]))
+			return env.Do(q.Build()).Code
+		}
+		adminOnly := []struct {
+			name string
+			q    verifReq
+		}{
+			{"users-list", verifReq{Method: "GET", Path: "/users/"}},
+			{"add-user", verifReq{Method: "POST", Path: "/admin/addUser", Form: url.Values{"username": {"memo-new"}}}},
+			{"delete-user", verifReq{Method: "POST", Path: "/admin/deleteUser", Form: url.Values{"username": {"bob"}}}},
+			{"bootstrap-otp-issue", verifReq{Method: "POST", Path: "/admin/newBoostrapOTP", Form: url.Values{"username": {"bob"}}}},
+			{"profile-of-other", verifReq{Method: "GET", Path: "/profile/bob"}},
+		}
+		for round, order := range []string{"mint-first", "admin-routes-first", "mint-first", "after-memo-expiry"} {
+			clk.Advance(6 * time.Minute) // a fresh memo for every round
+			before := c08Snapshot(env.DB())
+			step := func(what string) {
+				if what == "mint" {
+					got := mintAs("autoadm")
+					rep.Eval(fmt.Sprintf("automation-admin-sequence|%s|mint|%d", order, got))
+					rep.Count("automation_admin_sequence_probes", 1)
+					if got != 200 {
+						rep.Violate("C08/automation-admin-sequence/mint-refused/"+order, "an automation admin was refused an automation certificate", map[string]interface{}{"order": order, "round": round, "status": got})
+					}
+					return
+				}
+				for _, a := range adminOnly {
+					q := a.q
+					q.Cookies = verifCk(cookie("autoadm", levels["password+U2F"]))
+					got := env.Do(q.Build()).Code
+					rep.Eval(fmt.Sprintf("automation-admin-sequence|%s|%s|%d", order, a.name, got/100))
+					rep.Count("automation_admin_sequence_probes", 1)
+					if got < 400 {
+						rep.Violate("C08/automation-admin-sequence/admin-route-served/"+a.name+"/"+order, "an automation admin (not an administrator) was served an administrator-only operation",
+							map[string]interface{}{"order": order, "round": round, "route": a.name, "status": got})
+					}
+				}
+			}
+			switch order {
+			case "mint-first":
+				step("mint")
+				step("admin")
+				step("mint")
+			case "admin-routes-first":
+				step("admin")
+				step("mint")
+				step("admin")
+			default:
+				step("mint")
+				clk.Advance(5*time.Minute + time.Second)
+				step("admin")
+			}
+			if after := c08Snapshot(env.DB()); !reflect.DeepEqual(before, after) {
+				rep.Violate("C08/automation-admin-sequence/profiles-changed/"+order, "stored profiles changed during requests of an automation admin", map[string]interface{}{"order": order})
+			}
+		}
 	}
+	rep.Floor("automation_admin_sequence_probes", 20)
 	rep.Floor("forbidden_cells", 300)
 	rep.Floor("allowed_cells", 100)
 	rep.Floor("admin_memo_probes", 7)
